@@ -70,6 +70,9 @@ def cases(tier, seed):
         for fmt in ("yaml", "yaml-intkeys"):
             for st in STRATEGIES:
                 out.append({"set": s, "tags": "one", "ids": "snake", "strategy": st, "fmt": fmt})
+                # the same with a non-numeric response key next to the numeric ones (default): under yaml-intkeys the mapping then mixes int and str keys
+                out.append({"set": s, "tags": "one", "ids": "snake", "strategy": st, "fmt": fmt, "with_default": True})
+        out.append({"set": s, "tags": "one", "ids": "snake", "strategy": "operationId", "fmt": "json", "with_default": True})
     for a, b in itertools.permutations(SPELLINGS, 2):
         for s in (REP_SETS[1:5] if tier == "quick" else REP_SETS):
             out.append({"set": s, "tags": f"spell:{a}|{b}", "ids": "snake", "strategy": "operationId", "fmt": "json"})
@@ -80,6 +83,9 @@ def cases(tier, seed):
     shapes = c01.op_cases("quick") + [ops.op("post", "/raw", [], {"kind": k, "required": True}, {"204": "none"}) for k in ("octet-noschema", "json-noschema", "multipart-noschema")]
     for sh in shapes:  # one shape per document: a shape whose package does not import (C01's subject) must not hide the others
         out.append({"shapes": [sh], "strategy": "operationId", "fmt": "json"})
+        if sh["params"] or sh.get("body"):
+            # the same shape written with components/{parameters,requestBodies,responses} $refs
+            out.append({"shapes": [sh], "strategy": "operationId", "fmt": "json", "refs": True})
     # naming strategy `clean` with FastAPI-style ids on routes that look like reserved names / start with a digit / use camelCase
     for strategy in ("clean", "operationId", "path"):
         out.append({"routes": ["/config", "/models", "/2fa/verify", "/userProfiles", "/import", "/items/{item_id}/type"], "strategy": strategy, "fmt": "json"})
@@ -106,7 +112,7 @@ def fastapi_id(handler, path, method):
 def build(case):
     if "shapes" in case:
         cs = [dict(c) for c in case["shapes"]]
-        doc, meta = ops.build_doc(cs)
+        doc, meta = ops.build_doc(cs, refs=bool(case.get("refs")))
         out = []
         for c, m in zip(cs, meta):
             c2 = dict(c)
@@ -130,8 +136,10 @@ def build(case):
         path, method = COMBOS[ci]
         params = [ops.param("id", "path", True, "integer")] if "{id}" in path else []
         body = {"kind": "json-ref", "required": True} if method == "post" else None
-        c = ops.op(method, path, params, body, {"200": "json-model"} if method != "delete" else {"204": "none"},
-                   tags_for(case["tags"], i), id_for(case["ids"], i, path, method))
+        resp = {"200": "json-model"} if method != "delete" else {"204": "none"}
+        if case.get("with_default"):
+            resp["default"] = "json-other"
+        c = ops.op(method, path, params, body, resp, tags_for(case["tags"], i), id_for(case["ids"], i, path, method))
         cs.append(c)
     doc, meta = ops.build_doc(cs, auto_tag=False, auto_id=False, prefix=False)
     return doc, cs
@@ -144,11 +152,11 @@ def norm_tag(t):
 def run_case(case):
     doc, cs = build(case)
     if "shapes" in case:
-        label = "shapes=" + " ;; ".join(ops.describe(c) for c in case["shapes"])
+        label = "shapes=" + " ;; ".join(ops.describe(c) for c in case["shapes"]) + ("|via-component-refs" if case.get("refs") else "")
     elif "routes" in case:
         label = f"routes={case['routes']}|{case['strategy']}"
     else:
-        label = f"ops={[COMBOS[i][1].upper() + ' ' + COMBOS[i][0] for i in case['set']]}|tags={case['tags']}|ids={case['ids']}|{case['strategy']}|{case['fmt']}"
+        label = f"ops={[COMBOS[i][1].upper() + ' ' + COMBOS[i][0] for i in case['set']]}|tags={case['tags']}|ids={case['ids']}|{case['strategy']}|{case['fmt']}" + ("|+default" if case.get("with_default") else "")
     case = dict({"tags": "-", "ids": "-", "set": []}, **case)
     found = []
     seen = set()
